@@ -1,5 +1,7 @@
 package h
 
+import "github.com/vedadiyan/genql"
+
 // leaves returns the innermost arrays (arrays none of whose elements is an array) in order.
 func leaves(x []any) [][]any {
 	inner := false
@@ -35,7 +37,7 @@ func checkC08(c Node) Verdict {
 	var concat []any
 	parts := [][]any{}
 	for _, leaf := range leaves(src) {
-		out := Run(map[string]any{"r": DeepCopy(any(leaf))}, flatQ, false)
+		out := Run(map[string]any{"r": DeepCopy(any(leaf)), "w": doc["w"]}, flatQ, false)
 		v.Execs++
 		if out.Err != nil || out.Panic != nil {
 			return fail("inner", v.SQL+" ; "+flatQ, append(v.Sig, "inner"), "the query run directly on an inner array failed: %s", out.Describe())
@@ -66,6 +68,21 @@ func checkC08(c Node) Verdict {
 		}
 	}
 	v.Nontrivial = len(concat) > 0 && len(parts) >= 2
+	// the same statement under an option set that every inner evaluation has to see as well: the literal 3 of
+	// `a = 3` read from the variables of the call (GETVAR), with a completion callback installed
+	if w := q["where"].(Node); w["k"] == "cmp" && w["op"] == "=" && w["r"].(Node)["k"] == "lit" {
+		gv := Node{"k": "fn", "f": "getvar", "args": []any{Lit(TStr("wanted"))}}
+		sql := Style{}.Query(With(q, "where", CmpE("=", w["l"].(Node), gv)))
+		calls := 0
+		opts := func() []genql.QueryOption {
+			return []genql.QueryOption{genql.WithVars(map[string]any{"wanted": float64(3)}), genql.CompletedCallback(func() { calls++ })}
+		}
+		out := Run(FromTagged(c["doc"]).(map[string]any), sql, false, opts()...)
+		v.Execs++
+		if out.Err != nil || out.Panic != nil || !Equal(any(out.Rows), any(want)) {
+			return fail("inner", sql, append(v.Sig, "options"), "with WithVars + CompletedCallback: %s, with the literal: %s", out.Describe(), Canon(any(want)))
+		}
+	}
 	return v
 }
 
